@@ -13,7 +13,8 @@ NEED = ('query-CHECK', 'query-LOGIN', 'query-MORE', 'password-malformed', 'chall
 def plan(tier):
     S = pcommon.S
     if tier == 'quick':
-        return [S('solo/orders/login+drone/t30', 'login+drone', 30, [1], alpha.scen_orders([1])),
+        return [S('solo/hurry/login+drone/t30', 'login+drone', 30, [1], alpha.scen_hurry([1])),     # several password forms of different length per instance
+                S('solo/orders/login+drone/t30', 'login+drone', 30, [1], alpha.scen_orders([1])),
                 S('solo/orders/ipr+comb/t0', 'ipr+comb', 0, [1], alpha.scen_orders([1], passwords=('x', 'nopass'), pbudget=2), maxstates=6000)]
     p = []
     for g in ('login+drone', 'ipr+comb', 'login', 'ipr', 'drone', 'comb', 'all4'):
